@@ -65,7 +65,6 @@ let sample_index i count =
 
 let out_rres_len k r = match r with
   | ROk l -> out_int k (len l)
-  | ROob _ -> out_str k "oob"
   | RFuel _ -> out_str k "fuel"
 
 let out_optn k = function Some x -> out_n k x | None -> out_str k "fuel"
@@ -119,11 +118,21 @@ let () = register "rle_cap" (fun a ->
   let r = if hdr then rle_decode_with_header bytes cap else rle_decode bytes cap in
   out_int "n" (len bytes);
   out_rres_len "ret" r;
-  (match r with ROob _ -> out_str "guard" "hi" | _ -> out_str "guard" "ok");
+  out_str "guard" "ok";
   let st = rres_stores r in
   out_int "touched" (len st);
   let k = min (len st) capi in
   out_cmp "out" (firstn k st) (firstn k v))
+
+let () = register "rle_hostile" (fun a ->
+  let b = bytes_of_hex a.(0) in
+  let cap = n_of_string a.(1) in
+  let r = rle_decode b cap in
+  out_rres_len "ret" r;
+  out_str "guard" "ok";
+  let st = rres_stores r in
+  out_int "touched" (len st);
+  out_nlist "out" st)
 
 let () = register "rle_rc" (fun a ->
   let b = bytes_of_hex a.(0) in
